@@ -181,6 +181,57 @@ def validator_pred(cls: ast.ClassDef) -> str:
     return _u(body[0].value)
 
 
+LEAN_STATE = {"ON": ".on", "OFF": ".off", "BOOTING": ".booting", "SHUTTING_DOWN": ".shuttingDown"}
+
+
+def validator_lean(node_cls: ast.ClassDef, name: str, _depth: int = 0) -> str:
+    """the validator's `__call__` as a Lean predicate over the node's power state `s` (semantics, not spelling): comparisons of
+    `self.node.operating_state` with members of NodeOperatingState, `in` / `not in` a literal tuple or list, `not`, `and`, `or`,
+    and `super().__call__(request, context)` resolved to the (nested) base validator. Anything else raises."""
+    if _depth > 4:
+        raise ValueError(f"{name}: validator inheritance too deep")
+    cls = next((n for n in node_cls.body if isinstance(n, ast.ClassDef) and n.name == name), None)
+    if cls is None:
+        raise ValueError(f"Node.{name} not found")
+    call = find_method(cls, "__call__")
+    body = [s for s in call.body if not _is_log(s)]
+    if len(body) != 1 or not isinstance(body[0], ast.Return):
+        raise ValueError(f"{name}.__call__: not a single return")
+    if any(isinstance(n, ast.FunctionDef) and n.name not in ("__call__", "fail_message") for n in cls.body):
+        raise ValueError(f"{name}: unexpected method")
+
+    def member(e: ast.expr) -> str:
+        t = ast.unparse(e)
+        if t.startswith("NodeOperatingState.") and t.split(".", 1)[1] in LEAN_STATE:
+            return LEAN_STATE[t.split(".", 1)[1]]
+        raise ValueError(f"{name}.__call__: not a NodeOperatingState member: {t}")
+
+    def tr(e: ast.expr) -> str:
+        if isinstance(e, ast.Compare) and len(e.ops) == 1 and ast.unparse(e.left) == "self.node.operating_state":
+            op, rhs = e.ops[0], e.comparators[0]
+            if isinstance(op, (ast.Eq, ast.Is)):
+                return f"(s == {member(rhs)})"
+            if isinstance(op, (ast.NotEq, ast.IsNot)):
+                return f"(s != {member(rhs)})"
+            if isinstance(op, (ast.In, ast.NotIn)) and isinstance(rhs, (ast.Tuple, ast.List, ast.Set)):
+                inner = " || ".join(f"(s == {member(x)})" for x in rhs.elts) or "false"
+                return f"({inner})" if isinstance(op, ast.In) else f"(!({inner}))"
+        if isinstance(e, ast.UnaryOp) and isinstance(e.op, ast.Not):
+            return f"(!{tr(e.operand)})"
+        if isinstance(e, ast.BoolOp):
+            return "(" + (" && " if isinstance(e.op, ast.And) else " || ").join(tr(v) for v in e.values) + ")"
+        if isinstance(e, ast.Constant) and isinstance(e.value, bool):
+            return "true" if e.value else "false"
+        if isinstance(e, ast.Call) and ast.unparse(e.func) == "super().__call__":
+            bases = [ast.unparse(b) for b in cls.bases]
+            nested = [b for b in bases if any(isinstance(n, ast.ClassDef) and n.name == b for n in node_cls.body)]
+            if len(nested) != 1:
+                raise ValueError(f"{name}: super().__call__ with bases {bases}")
+            return validator_lean(node_cls, nested[0], _depth + 1)
+        raise ValueError(f"{name}.__call__: untranslatable `{ast.unparse(e)[:80]}`")
+    return tr(body[0].value)
+
+
 def routes_of(cls: ast.ClassDef) -> Optional[List[Tuple[str, str]]]:
     """(key, guard) of every `rm.add_request(...)` on the manager returned by super()._init_request_manager()."""
     try:
@@ -419,6 +470,77 @@ def nic_enable_defs() -> List[Tuple[str, str, str]]:
     return out
 
 
+# ------------------------------------------------------------------------------------------------ frame entry points
+ENTRY_CALLEES = ("receive_frame", "receive_payload_from_session_manager", "receive")
+
+
+def _layer_of(cname: str, layers: Dict[str, set]) -> str:
+    for layer, names in layers.items():
+        if cname in names:
+            return layer
+    return "other"
+
+
+def frame_entry_sites() -> List[Tuple[str, str, str, bool]]:
+    """every call of `receive_frame(` / `receive_payload_from_session_manager(` / software `.receive(` under simulator/ and
+    game/: (caller `Class.function@file`, kind, receiver, lexically under the caller's `if self.enabled:`).
+    kind = `<layer of the caller>><layer entered>` with layers wire (Link, AirSpace) < iface < node < sess < swmgr <
+    software, or `super` for a call to the same method of the base class.  A call whose receiver is not one of the known
+    spellings raises: a new way INTO a node would otherwise go unseen."""
+    layers = {
+        "iface": {n for _r, n, _c in _subclasses_of("NetworkInterface")},
+        "node": {n for _r, n, _c in _subclasses_of("Node")},
+        "sess": {n for _r, n, _c in _subclasses_of("SessionManager")},
+        "swmgr": {n for _r, n, _c in _subclasses_of("SoftwareManager")},
+        "software": {n for _r, n, _c in _subclasses_of("Software")},
+        "wire": {"Link", "AirSpace"},
+    }
+    out = []
+    for (rel, cname), c in sorted(_all_classes().items()):
+        caller_layer = _layer_of(cname, layers)
+        for fn in c.body:
+            if not isinstance(fn, ast.FunctionDef):
+                continue
+
+            def visit_stmt(ch, under_enabled, fn=fn):
+                if isinstance(ch, (ast.FunctionDef, ast.ClassDef)) and ch is not fn:
+                    return
+                if isinstance(ch, ast.If) and ast.unparse(ch.test) == "self.enabled":
+                    for x in ch.body:
+                        visit_stmt(x, True)
+                    for x in ch.orelse:
+                        visit_stmt(x, under_enabled)
+                    return
+                if isinstance(ch, ast.Call) and isinstance(ch.func, ast.Attribute) and ch.func.attr in ENTRY_CALLEES:
+                    recv = ast.unparse(ch.func.value)
+                    callee = ch.func.attr
+                    if recv == "super()":
+                        kind = "super"
+                    elif callee == "receive_frame" and recv == "self._connected_node" and caller_layer == "iface":
+                        kind = "iface>node"
+                    elif callee == "receive_frame" and caller_layer == "wire" and recv in ("receiver", "wireless_interface"):
+                        kind = "wire>iface"
+                    elif callee == "receive_frame" and recv == "self.session_manager" and caller_layer == "node":
+                        kind = "node>sess"
+                    elif callee == "receive_payload_from_session_manager" and recv == "self.software_manager" and caller_layer == "sess":
+                        kind = "sess>swmgr"
+                    elif callee == "receive" and caller_layer == "swmgr" and recv in ("nmap", "main_receiver", "receiver"):
+                        kind = "swmgr>software"
+                    else:
+                        raise ValueError(f"{cname}.{fn.name} ({rel}): unclassified entry call `{ast.unparse(ch)[:70]}` "
+                                         f"(caller layer {caller_layer})")
+                    out.append((f"{cname}.{fn.name}@{rel.split('/')[-1]}", kind, recv, bool(under_enabled)))
+                for sub in ast.iter_child_nodes(ch):
+                    visit_stmt(sub, under_enabled)
+            # `if not self.enabled: return False` as the first statement guards the rest of the function
+            body = [x for x in fn.body if not _is_log(x)]
+            first_guard = (bool(body) and isinstance(body[0], ast.If) and ast.unparse(body[0].test) == "not self.enabled"
+                           and isinstance(body[0].body[-1], ast.Return))
+            for st in fn.body:
+                visit_stmt(st, first_guard)
+    return out
+
+
 # ------------------------------------------------------------------------------------------------ per-tick statements
 def _loop_over(st: ast.stmt, coll: str, meth: str) -> bool:
     """`for x in self.<coll>[.values()]: <x or self.<coll>[x]>.<meth>(timestep…)` and nothing else"""
@@ -570,6 +692,24 @@ def loader_shapes() -> Dict[str, str]:
     return out
 
 
+def session_shapes() -> Dict[str, str]:
+    """`UserSessionManager.pre_timestep` (the time-out sweep) and the head of `_login`, as canonical text, plus whether the
+    sweep and `_timeout_session` mention the node's power or `_can_perform_action` at all"""
+    usm = class_def(parse(BASE), "UserSessionManager")
+    pre = find_method(usm, "pre_timestep")
+    tmo = find_method(usm, "_timeout_session")
+    login = find_method(usm, "_login")
+    body = [x for x in login.body if not _is_log(x)]
+    guarded = (bool(body) and isinstance(body[0], ast.If) and ast.unparse(body[0].test) == "not self._can_perform_action()"
+               and isinstance(body[0].body[-1], ast.Return) and ast.unparse(body[0].body[-1].value) == "None")
+    src = ast.unparse(pre) + ast.unparse(tmo)
+    blind = not any(w in src for w in ("operating_state", "_can_perform_action", "NodeOperatingState"))
+    limit = find_method(usm, "remote_session_limit_reached")
+    return {"pre_timestep": flat(pre.body), "login_guarded": "true" if guarded else "false",
+            "sweep_power_blind": "true" if blind else "false",
+            "remote_limit": flat(limit.body)}
+
+
 def power_call_sites() -> List[Tuple[str, str, int]]:
     """(file, enclosing function, number of calls) of every `<x>.power_on()` / `.power_off()` / node `.reset()` under src/primaite,
     the definitions in base.py excluded"""
@@ -699,6 +839,9 @@ def emit() -> str:
     lines.append("def wirelessEnableGuards : List String := [" + ", ".join(lean_str(g) for g in wireless) + "]")
     lines.append("/-- does the method start with the `enabled` test (and answer False otherwise)? -/")
     lines.append("def nicEntryGuarded : List (String × Bool) := [" + ", ".join(f"({lean_str(n)}, {b(v)})" for n, v in entry) + "]")
+    lines.append("/-- the two node validators as predicates over the node's power state (translated, not spelt) -/")
+    lines.append(f"def nodeIsOnPred : PState → Bool := fun s => {validator_lean(node, '_NodeIsOnValidator')}")
+    lines.append(f"def nodeIsOffPred : PState → Bool := fun s => {validator_lean(node, '_NodeIsOffValidator')}")
     lines.append(f"def nodeIsOnPredicate : String := {lean_str(on_pred)}")
     lines.append(f"def nodeIsOffPredicate : String := {lean_str(off_pred)}")
     lines.append("/-- node-level request routes (key, validator) per concrete node class, subclass additions applied -/")
@@ -714,6 +857,11 @@ def emit() -> str:
     lines.append("/-- every definition of enable() / disable() at or below NetworkInterface, with its shape -/")
     lines.append("def nicEnableDefs : List (String × String × String) := [" +
                  ", ".join(f"({lean_str(a)}, {lean_str(b_)}, {lean_str(c_)})" for a, b_, c_ in nic_enable_defs()) + "]")
+    lines.append("/-- every call that hands a frame / payload one layer up (wire > interface > node > session manager > software")
+    lines.append("manager > software): (caller, kind, receiver, under the caller's `if self.enabled`) -/")
+    lines.append("def frameEntrySites : List (String × String × String × Bool) := [")
+    lines.append(",\n".join(f"  ({lean_str(a)}, {lean_str(k)}, {lean_str(r)}, {b(g)})" for a, k, r, g in frame_entry_sites()))
+    lines.append("]")
     lines.append("/-- every top-level statement of `Node.apply_timestep` with the power test it sits under -/")
     lines.append("def tickStmts : List (StmtGuard × TickStmt) := [" +
                  ", ".join(f"(.{g}, .{t})" for g, t in guarded_statements(find_method(node, "apply_timestep"), "apply_timestep")) + "]")
@@ -724,6 +872,9 @@ def emit() -> str:
     lines.append("def loaderShapes : List (String × String) := [")
     lines.append(",\n".join(f"  ({lean_str(k)}, {lean_str(v)})" for k, v in loader_shapes().items()))
     lines.append("]")
+    lines.append("/-- `UserSessionManager`: the time-out sweep of pre_timestep, whether it consults power, the guard of `_login` -/")
+    lines.append("def sessionShapes : List (String × String) := [" +
+                 ", ".join(f"({lean_str(k)}, {lean_str(v)})" for k, v in session_shapes().items()) + "]")
     lines.append("/-- every call of power_on / power_off under src/primaite: (file, function:method, count) -/")
     lines.append("def powerCallSites : List (String × String × Nat) := [" +
                  ", ".join(f"({lean_str(f)}, {lean_str(fn)}, {k})" for f, fn, k in power_call_sites()) + "]")
